@@ -16,8 +16,11 @@ PROP = "C01"
 POOLS = {
     "quick": [
         dict(nv=2, maxl=2, maxar=3, classes=("D", "U")),
+        # the last vertex is a twin of the first: a distinct object with the same uid (what un-pickling gives)
+        dict(nv=3, maxl=1, maxar=2, classes=("D", "U"), bad=False, twin=True),
     ],
     "thorough": [
+        dict(nv=3, maxl=2, maxar=2, classes=("D", "U"), bad=False, twin=True),
         dict(nv=2, maxl=2, maxar=3, classes=("D", "U")),
         dict(nv=3, maxl=2, maxar=2, classes=("D", "U")),
         dict(nv=3, maxl=1, maxar=3, classes=("D", "U", "O")),
@@ -44,7 +47,7 @@ class System:
     def initial(self):
         if isinstance(self.alpha, Pumped):
             return self.alpha.initial()
-        return SWorld(self.alpha.nv)
+        return SWorld(self.alpha.nv, twin=getattr(self.alpha, "twin", False))
 
     def ops(self, w):
         return self.alpha.ops(w)
@@ -81,7 +84,7 @@ def replay(rec, verbose=False):
             print(f"  start: hub v0 with {alpha.n} links to v1..v{alpha.n}; late = v{alpha.n + 1}, elsewhere = v{alpha.n + 2}")
     else:
         alpha = Alphabet(**rec["pool"])
-        w = SWorld(alpha.nv)
+        w = SWorld(alpha.nv, twin=getattr(alpha, "twin", False))
     obs = None
     for op in rec["history"]:
         obs = apply_op(w, tuple(op))
